@@ -82,6 +82,7 @@ type ToolDef struct {
 type ToolOut struct {
 	Args   string   `json:"args"`
 	Chunks []string `json:"chunks"`
+	Fail   bool     `json:"fail,omitempty"` // the stream ends with an error item after the chunks (the tool fails when invoked)
 }
 
 type Case struct {
@@ -334,8 +335,21 @@ func (c *Case) toolChunks(name, args string) []string {
 	return []string{name, "(", args, ")"}
 }
 
+// the tool fails after having produced its chunks
+func (c *Case) failsLate(args string) bool {
+	for _, o := range c.Outs {
+		if o.Args == args && len(o.Chunks) > 0 {
+			return o.Fail
+		}
+	}
+	return false
+}
+
 func (t *recTool) invoke(ctx context.Context, args string, opts ...tool.Option) (string, error) {
 	if !t.record(ctx, t.name, args, opts...) {
+		return "", &toolErr{}
+	}
+	if t.c.failsLate(args) {
 		return "", &toolErr{}
 	}
 	return strings.Join(t.c.toolChunks(t.name, args), ""), nil
@@ -346,17 +360,26 @@ func (t *recTool) stream(ctx context.Context, args string, opts ...tool.Option) 
 		return nil, &toolErr{}
 	}
 	chunks := append([]string{}, t.c.toolChunks(t.name, args)...)
-	if !t.c.PipeStream {
+	late := t.c.failsLate(args)
+	if !t.c.PipeStream && !late {
 		return schema.StreamReaderFromArray(chunks), nil
 	}
-	// a tool that really streams: an unbuffered pipe fed by its own goroutine
-	sr, sw := schema.Pipe[string](0)
+	// a tool that really streams: a pipe fed by its own goroutine (unbuffered, or - so that a
+	// reader that stops early does not leave the goroutine behind - large enough for everything)
+	n := 0
+	if !t.c.PipeStream {
+		n = len(chunks) + 1
+	}
+	sr, sw := schema.Pipe[string](n)
 	go func() {
 		defer sw.Close()
 		for _, ch := range chunks {
 			if sw.Send(ch, nil) {
 				return
 			}
+		}
+		if late {
+			sw.Send("", &toolErr{})
 		}
 	}()
 	return sr, nil
@@ -972,6 +995,9 @@ func (c *Case) specRunWith(stopAt int, callOpts bool) (o RunObs) {
 					failed = true
 				}
 			}
+			if c.failsLate(cl.Args) && kindIn(defs, cl.Name) != "" {
+				failed = true
+			}
 			out := strings.Join(c.toolChunks(cl.Name, cl.Args), "")
 			if kindIn(defs, cl.Name) == "" {
 				out = "unk:" + cl.Name + ":" + cl.Args
@@ -1271,7 +1297,7 @@ func (c *Case) coq(runs []string) string {
 		for i, ch := range o.Chunks {
 			cs[i] = S(ch)
 		}
-		outs = append(outs, lib.CoqPair(S(o.Args), lib.CoqList(cs)))
+		outs = append(outs, lib.CoqPair(lib.CoqPair(S(o.Args), lib.CoqList(cs)), lib.CoqBool(o.Fail)))
 	}
 	persona := "None"
 	if c.Persona != "" {
@@ -1444,7 +1470,7 @@ func genCase(r *lib.Rng, tier string) *Case {
 	if r.Chance(2, 5) {
 		for _, w := range r.Perm(len(argPool))[:r.Range(1, 3)] {
 			a := argPool[w]
-			c.Outs = append(c.Outs, ToolOut{Args: a, Chunks: genToolChunks(r)})
+			c.Outs = append(c.Outs, ToolOut{Args: a, Chunks: genToolChunks(r), Fail: r.Chance(1, 12)})
 			outArgs = append(outArgs, a)
 		}
 	}
@@ -1734,6 +1760,13 @@ func (engine) Run(ci any) lib.Result {
 			emptyRes = emptyRes || whole == ""
 		}
 	}
+	lateFail := false
+	for _, st := range c.Script {
+		for _, cl := range st.Calls {
+			lateFail = lateFail || (c.failsLate(cl.Args) && kindIn(c.toolsOf(true), cl.Name) != "")
+		}
+	}
+	res.Tags = append(res.Tags, fmt.Sprintf("tool-fails-after-its-chunks:%v", lateFail))
 	res.Tags = append(res.Tags, fmt.Sprintf("tool-result-empty:%v", emptyRes), fmt.Sprintf("tool-result-with-empty-chunk:%v", emptyChunk),
 		fmt.Sprintf("tool-result-from-table:%v", tabled))
 	if gen.Out.Class == "final" && gen.Out.Msg.Content == "" {
